@@ -141,7 +141,7 @@ Print Assumptions C06_unescape_surrogate_orig_refuted.
    Owner of this part: ext-actions.  parse_full = the loop of Parser::parse over the regenerated tables with all 90 reduce actions of
    parser.rs on the node stack; the check compares it node by node with the real parser on every generated case of every construct. *)
 From Coq Require Import ZArith String.
-From DV Require Import Gen.LalrTables C06.Actions C06.ActionsKinds C06.ActionsProofs.
+From DV Require Import Gen.LalrTables C06.Actions C06.ActionsKinds C06.ActionsProofs C06.ActionsAutomaton C06.ActionsGlobal.
 
 (* every action name in the reduce arms of lalr.rs (regenerated on this run) is one of the modelled actions *)
 Theorem C06_actions_all_known :
@@ -158,8 +158,8 @@ Print Assumptions C06_actions_all_known.
    the symbols in front of it in its rule -- on the value stack (vtyped), the action of the rule returns Ok (no err_pop, no index out of
    bounds, no node dropped by an `if let`), touches nothing below the known part, and leaves kinds q with (P, q) a declared effect of
    the left-hand side (sound_step).  Also: the rule's length in feel.y is the YY_R2 entry the driver pops.
-   What is NOT formalised: the invariant of the LR automaton (at a reduction the symbols on the stack are the rule's right-hand side),
-   by which this rule-by-rule statement extends to whole parses; the check compares whole parses with the real parser instead. *)
+   The invariant of the LR automaton (at a reduction the symbols on the stack are the right-hand side of the rule), by which this
+   rule-by-rule statement extends to whole parses, is C06_parse_full_safe below. *)
 Theorem C06_actions_stack_safe :
   forall r lhs rhs, In (r, (lhs, rhs)) grammar_rules ->
   Z.of_nat (List.length rhs) = zn t_r2 r /\
@@ -209,6 +209,42 @@ Theorem C06_nested_lists_roundtrip : forall l,
   parse_full (kk tok_StartExpression :: nl_tokens (NList l)) = Some (nl_tree (NList l)).
 Proof. exact nested_lists_roundtrip. Qed.
 Print Assumptions C06_nested_lists_roundtrip.
+
+(* STACK SAFETY FOR WHOLE PARSES, every input (coq/C06/ActionsAutomaton.v, ActionsGlobal.v).  On every list of tokens as the lexer delivers
+   them (tok_ok: the token type is a terminal of the grammar, the token value is the one of that terminal: a name for NAME, digits for
+   NUMERIC, ...), the model of the parser with all 90 semantic actions never raises a pop error (FErrPop), never indexes the value stack out
+   of bounds (FPanic), never meets an action it does not know, never runs out of states, never accepts with a node stack that is not
+   exactly one node (FBadResult): the result is a tree, a syntax error, or the model's own fuel running out.
+   Proof: an invariant of the run.  The state stack is a path of the automaton READ OFF THE TABLES (ActionsAutomaton.auto: the transitions
+   closed under the moves of the driver, computed from the regenerated tables alone); on every such path the right-hand side of every rule
+   a state can reduce lies on top of the stack (back_ok: the LR invariant, a finite check), and so do the symbols in front of a mid-rule
+   action; the value stack holds the values of the symbols of the path; the kinds of the node stack are a chain of declared effects of
+   those symbols, and wherever a symbol that consumes nodes from below is about to be recognised those nodes are there (pre_ok, read off
+   the transitions).  With C06_actions_stack_safe for the reduction itself.  Finite part: C06_automaton_checked (VM, re-proved whenever
+   lalr.rs or feel.y changes).  Trusted reading: grammar names of the terminals = TokenType names in upper snake case (a wrong name makes
+   the finite check fail: a rule would be reduced on top of other symbols). *)
+Theorem C06_parse_full_safe : forall toks, Forall ActionsGlobal.tok_ok toks ->
+  match parse_res toks with FAccept _ | FSyntax | FFuel => True | _ => False end.
+Proof. exact parse_full_safe. Qed.
+Print Assumptions C06_parse_full_safe.
+
+(* with the decidable token test that the check evaluates on every token list it feeds to the model *)
+Theorem C06_parse_full_safe_checked : forall toks, forallb ActionsAutomaton.tok_okb toks = true ->
+  match parse_res toks with FAccept _ | FSyntax | FFuel => True | _ => False end.
+Proof. exact parse_full_safe_b. Qed.
+Print Assumptions C06_parse_full_safe_checked.
+
+Theorem C06_automaton_checked : automaton_ok = true.
+Proof. exact automaton_ok_true. Qed.
+Print Assumptions C06_automaton_checked.
+
+Example C06_tokens_nonvacuous :
+  Forall ActionsGlobal.tok_ok [(tok_StartExpression, VTok tok_StartExpression); (tok_LeftBracket, VTok tok_LeftBracket); (tok_Name, VName 1%N);
+                 (tok_Comma, VTok tok_Comma); (tok_Numeric, VNumeric 2%N 3%N); (tok_String, VString 4%N); (tok_Boolean, VBoolean true);
+                 (tok_Null, VTok tok_Null); (tok_BuiltInTypeName, VBuiltInTypeName 5%N); (tok_NameDateTime, VNameDateTime 6%N);
+                 (tok_RightBracket, VTok tok_RightBracket)].
+Proof. exact tok_ok_sample. Qed.
+Print Assumptions C06_tokens_nonvacuous.
 
 (* ------------------------------------------------------------------ TEXT -> TOKENS -> TREE (owner: ext-lexer; coq/C06/Lexer.v, LexerProofs.v, LexerText.v) *)
 From DV Require Import C06.Lexer C06.LexerProofs C06.LexerText.
